@@ -71,6 +71,9 @@ def check_points(spec, ctx):
     for i in range(len(pos)):
         got.append(loc.relative_to_parent_pos(i))
     ctx.eq("r2p_enumerates", got, pos)
+    # coordinates are plain Python ints (they are written into JSON, GFF3, BED and used as slice bounds by every caller)
+    ctx.true("coordinates_are_plain_ints", all(type(x) is int for x in got) and type(loc.start) is int and type(loc.end) is int and type(len(loc)) is int,
+             sorted({type(x).__name__ for x in got + [loc.start, loc.end]}))
     for bad in (-1, len(pos), len(pos) + 1):
         try:
             r = loc.relative_to_parent_pos(bad)
@@ -90,6 +93,8 @@ def check_points(spec, ctx):
             except REJECT as e:
                 ctx.fail("p2r_rejects_member", {"p": p, "exc": repr(e)[:100]})
                 continue
+            if type(r) is not int:
+                ctx.fail("p2r_not_a_plain_int", {"p": p, "type": type(r).__name__})
             if not (0 <= r < len(pos)) or pos[r] != p:
                 ctx.fail("p2r_not_inverse", {"p": p, "rel": r})
             elif not overlap:
